@@ -209,7 +209,7 @@ type faultCase struct {
 func init() {
 	Registry["C07"] = func(c *Ctx) {
 		c.R.Level = "model_checking"
-		c.R.Rule = "for each of 4 short histories on the model workspace (cold build; warm rebuild after an input edit; restore after deleting all outputs; re-execution over existing cache entries) a fault-free run of an instrumented grog binary logs every instance of every file-system call site of the cache backend, output handlers, executor, locker and loader, and every cache-backend operation; then for EVERY logged crash-point instance the process is killed (SIGKILL) exactly there, and for EVERY backend operation instance a storage fault is injected (error before the operation; for Set: content consumed, nothing stored, error; for Get: reader failing after the first byte; Get/Exists reporting absent); after each faulted run the cache directory is audited offline (every cas blob hashes to its name, every target result decodes, carries its key and references only present blobs, recursively through directory trees), then a fault-free follow-up build must exit 0 with outputs identical to a from-scratch build, and a second one must execute nothing. Component level: 2 and 3 concurrent writers of the SAME digest (targets with identical output bytes) go through the real Cas and TargetResultCache over a backend whose Set is split into started/committed by scheduling points and may fail, under every schedule with <= 3 (quick) / 4 (thorough) deviations: a write is acknowledged only when the blob is stored, no target result is visible without its blob. Non-trivial = a fault instance after which the cache directory differs from both the pre-state and the fault-free post-state, or the faulted run failed."
+		c.R.Rule = "for each of 4 short histories on the model workspace (cold build; warm rebuild after an input edit; restore after deleting all outputs; re-execution over existing cache entries) a fault-free run of an instrumented grog binary logs every instance of every file-system call site of the cache backend, output handlers, executor, locker and loader, and every cache-backend operation; then for EVERY logged crash-point instance the process is killed (SIGKILL) exactly there, and for EVERY backend operation instance a storage fault is injected (error before the operation; for Set: content consumed, nothing stored, error; for Get: reader failing after the first byte; Get/Exists reporting absent); after each faulted run the cache directory is audited offline (every cas blob hashes to its name, every target result decodes, carries its key and references only present blobs, recursively through directory trees), then a fault-free follow-up build must exit 0 with outputs identical to a from-scratch build, and a second one must execute nothing. Component level: 2 and 3 concurrent writers of the SAME digest (targets with identical output bytes) go through the real Cas and TargetResultCache over a backend whose Set is split into started/committed by scheduling points and may fail, under every schedule with <= 3 (quick) / 4 (thorough) deviations: a write is acknowledged only when the blob is stored, no target result is visible without its blob. Interrupts: SIGINT/SIGTERM delivered at every logged call-site instance (quick: <= 3 per site) of a build with a directory output; the cache left behind must pass the same audit. Non-trivial = a fault instance after which the cache directory differs from both the pre-state and the fault-free post-state, or the faulted run failed."
 		c.R.Assume("a crash is SIGKILL of the grog process: the surviving state is the prefix of completed system calls (power-loss reordering of unsynced blocks is outside the stated property; grog never calls fsync)", "crash points are the statements that perform os.* / io.Copy / Chmod calls in "+strings.Join(crashFiles, ", "), "the relative progress of other goroutines at the crash instant is whatever the runtime produced in that run (the schedule dimension is explored at component level by the bubblesched checks)")
 		grog, err := vc.BuildGrog("grog", nil)
 		if err != nil {
@@ -397,6 +397,19 @@ func init() {
 		// component level: concurrent writers of the same digest through the real Cas under every
 		// schedule (and backend write failure) with a bounded number of deviations
 		casRace(c, "C07")
+		// an interrupt is a fault too: SIGINT/SIGTERM at every call-site instance of a build with a
+		// directory output; whatever the interrupted build left in the cache must pass the audit
+		{
+			sub := vc.NewReport("C07", c.Tier)
+			signalEnumeration(&Ctx{R: sub, Tier: c.Tier, Thorough: c.Thorough}, false)
+			sub.Relabel(func(sig string) string {
+				if strings.HasPrefix(sig, "C18:cache-audit:") {
+					return "C07:cache-audit-after-interrupt:" + strings.TrimPrefix(sig, "C18:cache-audit:")
+				}
+				return sig
+			})
+			c.R.Merge(sub, func(sig string) bool { return strings.HasPrefix(sig, "C07:") })
+		}
 		var hn []string
 		for _, h := range hs {
 			hn = append(hn, h.name)
